@@ -58,6 +58,10 @@ type Options struct {
 	// Syslog, if set, makes the stack register the syslog accounter (which cmds/server/main.go leaves
 	// out) for accounters of type SYSLOG, writing to this writer
 	Syslog *syslog.Writer
+	// SecretKeychain, if set, replaces the stock shared-secret keychain (secret.New(), which never fails)
+	SecretKeychain interface {
+		Add(k config.Keychain) func(context.Context, string) ([]byte, error)
+	}
 	// Ctx, if set, is the context handed to the Loader (cmds/server/main.go gives the Loader and Serve
 	// the same one); otherwise the stack gets a context of its own, cancelled by Close
 	Ctx context.Context
@@ -116,9 +120,12 @@ func New(doc []byte, o Options) (*Stack, error) {
 	if o.Syslog != nil {
 		extra = append(extra, loader.RegisterAccounter(config.SYSLOG, syslogacct.New(noCtx{o.Logger}, o.Syslog)))
 	}
+	if o.SecretKeychain == nil {
+		o.SecretKeychain = secret.New()
+	}
 	l, err := loader.NewLoader(ctx, um, append(extra,
 		loader.SetLoggerProvider(o.Logger),
-		loader.SetKeychainProvider(secret.New()),
+		loader.SetKeychainProvider(o.SecretKeychain),
 		loader.SetConfigProvider(config.New()),
 		loader.SetAuthorizerProvider(stringy.New(o.Logger)),
 		loader.RegisterSecretProviderType(config.PREFIX, prefix.New(o.Logger)),
